@@ -8,8 +8,8 @@
    Outcomes: Ok t (a frame), Raise (the implementation raises: e.g. `Expr.cumsum` no longer exists in Polars 1.44.2),
    Unmodelled (a method outside this model: nothing is predicted).
 
-   The join step is the step after the repairs c106ad7 / 5c7bd4d in /repo (the defect was found by this check and by C16:
-   a FULL join coalesces every shared column, keys included, so rows that exist only on the right keep their key values). *)
+   The join step is the step of /repo ad5b72b (after the repairs c106ad7 / 5c7bd4d, whose defect was found by this check and
+   by C16): every join keeps the key columns of both sides and coalesces every shared column itself. *)
 From Coq Require Import List Bool Arith ZArith QArith String DecimalString.
 Import ListNotations.
 From DA Require Import Base.PyRT Base.PyStr Base.Val Model.Sem.
@@ -226,25 +226,12 @@ Definition pl_group_agg (gb : list string) (aggs : list (string * plx)) (t : tab
                        k ++ map (fun kx => plx_at cs grp 0 (snd kx)) aggs)
              (distinct_keys (map (key_of cs gb) (rows t))))).
 
-(* DataFrame.join(other, left_on, right_on, how="inner" | "left", suffix): the right key columns are dropped (coalesced
-   into the left ones), the other right columns get the suffix when the name is taken; null keys never match *)
-Inductive plhow := HInner | HLeft.
+(* DataFrame.join(other, left_on, right_on, how, coalesce=False, suffix): every right column is kept, key columns included
+   (suffixed when the name is taken); null keys never match; how="left" / "outer": rows without a partner are kept with nulls
+   in all the columns of the other side *)
+Inductive plhow := HInner | HLeft | HFull.
 Definition suffixed (taken : list string) (suffix c : string) : string := if mem c taken then (c ++ suffix)%string else c.
 Definition pl_join (how : plhow) (left_on right_on : list string) (suffix : string) (a b : table) : res table :=
-  let ca := cols a in let cb := cols b in
-  let rnk := filter (fun c => negb (mem c right_on)) cb in
-  let out := ca ++ map (suffixed ca suffix) rnk in
-  if negb (nodupb out && Nat.eqb (List.length left_on) (List.length right_on)
-           && forallb (fun c => mem c ca) left_on && forallb (fun c => mem c cb) right_on) then Raise else
-  let matchp ra rb := keys_match false (key_of ca left_on ra) (key_of cb right_on rb) in
-  let rvals rb := map (get cb rb) rnk in
-  let matched := flat_map (fun ra => flat_map (fun rb => if matchp ra rb then [ra ++ rvals rb] else []) (rows b)) (rows a) in
-  let left_only := flat_map (fun ra => if existsb (matchp ra) (rows b) then [] else [ra ++ map (fun _ => VNull) rnk]) (rows a) in
-  Ok (mktable out (matched ++ (match how with HInner => [] | HLeft => left_only end))).
-
-(* DataFrame.join(other, how="outer" (= "full"), suffix): every right column is kept, key columns included (suffixed when
-   the name is taken); rows found only on the right have nulls in all the left columns *)
-Definition pl_join_full_keep (left_on right_on : list string) (suffix : string) (a b : table) : res table :=
   let ca := cols a in let cb := cols b in
   let out := ca ++ map (suffixed ca suffix) cb in
   if negb (nodupb out && Nat.eqb (List.length left_on) (List.length right_on)
@@ -253,7 +240,7 @@ Definition pl_join_full_keep (left_on right_on : list string) (suffix : string) 
   let matched := flat_map (fun ra => flat_map (fun rb => if matchp ra rb then [ra ++ rb] else []) (rows b)) (rows a) in
   let left_only := flat_map (fun ra => if existsb (matchp ra) (rows b) then [] else [ra ++ map (fun _ => VNull) cb]) (rows a) in
   let right_only := flat_map (fun rb => if existsb (fun ra => matchp ra rb) (rows a) then [] else [map (fun _ => VNull) ca ++ rb]) (rows b) in
-  Ok (mktable out (matched ++ left_only ++ right_only)).
+  Ok (mktable out (matched ++ (match how with HInner => [] | _ => left_only end) ++ (match how with HFull => right_only | _ => [] end))).
 
 (* ------------------------------------------------------------------ the steps of PolarsModel *)
 Definition nat_str (n : nat) : string := NilZero.string_of_uint (Nat.to_uint n).
@@ -345,37 +332,34 @@ Definition pl_order_step (cs rev : list string) (limit : option nat) (t : table)
 Definition pl_rename_step (declared : list string) (m : list (string * string)) (t : table) : res table :=
   rbind (pl_rename m t) (pl_select declared).
 
-(* _natural_join_step (ca, cb = columns_produced of the two sources) *)
-Definition join_tmp_key (c : string) : string := (c ++ "_da_join_tmp_key")%string.
+(* _natural_join_step after ad5b72b (ca, cb = columns_produced of the two sources): polars keeps the key columns of both
+   sides (coalesce=False), every column both sources produce -- keys included -- is coalesced left table first, for all join
+   types; without keys both inputs get a constant scratch column to join on (and "cross" becomes "inner") *)
 Definition sfx (c s : string) : string := (c ++ s)%string.
 Definition coalesce_left_first (c other : string) : plx := PWhen (PIsNull (PCol c)) (PCol other) (PCol c).
+(* "while scratch_col in names_in_use: scratch_col = scratch_col + '_'" *)
+Fixpoint fresh_name (fuel : nat) (c : string) (used : list string) : string :=
+  if mem c used then match fuel with O => c | S f => fresh_name f (c ++ "_")%string used end else c.
+Definition join_scratch (ca cb : list string) : string := fresh_name (S (List.length (ca ++ cb))) "_da_join_scratch_key" (ca ++ cb).
 Definition pl_join_step (declared ca cb on_a on_b : list string) (jt : jointype) (a b : table) : res table :=
+  let coalesce_columns := filter (fun c => mem c cb) ca in
+  let keyless := match on_a with [] => true | _ => false end in
+  let s := join_scratch ca cb in
+  let a' := if keyless then pl_with_columns a [(s, CPlain (lit_int 1))] else a in
+  let b' := if keyless then pl_with_columns b [(s, CPlain (lit_int 1))] else b in
+  let on_a' := if keyless then [s] else on_a in
+  let on_b' := if keyless then [s] else on_b in
   match jt with
   | JRight =>
       (* "simulate right join with left join" *)
-      let coalesce_columns := filter (fun c => mem c cb && negb (mem c on_b)) ca in
-      let orphan_keys := filter (fun c => negb (mem c on_b)) on_a in
-      let input_right := with_columns_if a (map (fun c => (join_tmp_key c, CPlain (PCol c))) orphan_keys) in
-      rbind (pl_join HLeft on_b on_a "_da_left_tmp" b input_right) (fun r =>
-      let r2 := with_columns_if r (map (fun c => (c, CPlain (PWhen (PIsNull (PCol (sfx c "_da_left_tmp"))) (PCol c) (PCol (sfx c "_da_left_tmp"))))) coalesce_columns) in
-      rbind (match orphan_keys with [] => Ok r2 | _ => pl_rename (map (fun c => (c, join_tmp_key c)) orphan_keys) r2 end) (fun r3 =>
-      pl_select declared r3))
-  | JFull =>
-      (* "a full join keeps the key columns of both sides (a clashing right one under the suffix): every shared column,
-         keys included, is coalesced, and no right key needs a scratch copy" *)
-      let coalesce_columns := filter (fun c => mem c cb) ca in
-      rbind (pl_join_full_keep on_a on_b "_da_right_tmp" a b) (fun r =>
-      let r2 := with_columns_if r (map (fun c => (c, CPlain (coalesce_left_first c (sfx c "_da_right_tmp")))) coalesce_columns) in
-      pl_select declared r2)
+      rbind (pl_join HLeft on_b' on_a' "_da_left_tmp" b' a') (fun r =>
+      pl_select declared
+        (with_columns_if r (map (fun c => (c, CPlain (PWhen (PIsNull (PCol (sfx c "_da_left_tmp"))) (PCol c) (PCol (sfx c "_da_left_tmp"))))) coalesce_columns)))
   | _ =>
-      let how := match jt with JInner => HInner | _ => HLeft end in
-      let coalesce_columns := filter (fun c => mem c cb && negb (mem c on_a)) ca in
-      let orphan_keys := filter (fun c => negb (mem c on_a)) on_b in
-      let input_right := with_columns_if b (map (fun c => (join_tmp_key c, CPlain (PCol c))) orphan_keys) in
-      rbind (pl_join how on_a on_b "_da_right_tmp" a input_right) (fun r =>
-      let r2 := with_columns_if r (map (fun c => (c, CPlain (coalesce_left_first c (sfx c "_da_right_tmp")))) coalesce_columns) in
-      rbind (match orphan_keys with [] => Ok r2 | _ => pl_rename (map (fun c => (c, join_tmp_key c)) orphan_keys) r2 end) (fun r3 =>
-      pl_select declared r3))
+      let how := match jt with JInner => HInner | JLeft => HLeft | _ => HFull end in
+      rbind (pl_join how on_a' on_b' "_da_right_tmp" a' b') (fun r =>
+      pl_select declared
+        (with_columns_if r (map (fun c => (c, CPlain (coalesce_left_first c (sfx c "_da_right_tmp")))) coalesce_columns)))
   end.
 
 (* _concat_rows_step.  ca = columns_produced of the first source = [c for c in op.columns_produced() if c != op.id_column];
@@ -482,7 +466,7 @@ Definition agg_of (e : expr) : string := match e with EOp op _ => op | _ => "" e
 Definition order_sensitive_fns : list string := ["shift"; "first"; "last"; "ffill"; "bfill"].
 
 (* one guard component per cause; each returns true when the pipeline is outside that cause *)
-Inductive cause := CVocab | CReserved | CCmpNull | CLogicNull | CNullJoinKey | CJoinKeyNames | CJoinKeyRepr
+Inductive cause := CVocab | CReserved | CCmpNull | CLogicNull | CJoinKeyed
                  | CSortNulls | CSortTies | CEmptyProject | CGroupKeyRepr.
 
 Definition names_of_step (p : op) : list string :=
@@ -512,13 +496,7 @@ Definition step_guard (c : cause) (p : op) (srcs : list table) : bool :=
   | CLogicNull, OExtend _ ops false _, [t] => rows_nulls_ok is_logic_op t (map snd ops)
   | CCmpNull, OSelectRows _ x, [t] => filter_rows_ok is_cmp_op t x
   | CLogicNull, OSelectRows _ x, [t] => filter_rows_ok is_logic_op t x
-  | CNullJoinKey, OJoin _ _ on_a on_b _, [ta; tb] =>
-      negb (existsb (fun ra => existsb is_null (key_of (cols ta) on_a ra) &&
-                               existsb (fun rb => keys_eqv (key_of (cols ta) on_a ra) (key_of (cols tb) on_b rb)) (rows tb)) (rows ta))
-  | CJoinKeyNames, OJoin _ _ on_a on_b _, _ => eqb on_a on_b
-  | CJoinKeyRepr, OJoin _ _ on_a on_b _, [ta; tb] =>
-      forallb (fun ra => forallb (fun rb => negb (keys_eqv (key_of (cols ta) on_a ra) (key_of (cols tb) on_b rb))
-                                            || eqb (key_of (cols ta) on_a ra) (key_of (cols tb) on_b rb)) (rows tb)) (rows ta)
+  | CJoinKeyed, OJoin _ _ on_a _ _, _ => match on_a with [] => false | _ => true end     (* joins without keys (CROSS) are outside the theorem *)
   | CSortNulls, OOrder _ cs _ (Some _), [t] => keys_nonnull (cols t) cs (rows t)
   | CSortTies, OOrder _ cs _ (Some _), [t] => keys_distinct (cols t) cs (rows t)
   | CSortNulls, OExtend _ ops true w, [t] =>
@@ -535,7 +513,7 @@ Definition step_guard (c : cause) (p : op) (srcs : list table) : bool :=
   end.
 
 Definition all_causes : list cause :=
-  [CVocab; CReserved; CCmpNull; CLogicNull; CNullJoinKey; CJoinKeyNames; CJoinKeyRepr; CSortNulls; CSortTies; CEmptyProject; CGroupKeyRepr].
+  [CVocab; CReserved; CCmpNull; CLogicNull; CJoinKeyed; CSortNulls; CSortTies; CEmptyProject; CGroupKeyRepr].
 
 Definition sources_of (p : op) : list op :=
   match p with
